@@ -91,7 +91,7 @@ static Integrator* makeInteg(int which, const System& sys) {
 }
 
 static std::string g_tag;
-struct Worst { double q = 0, quat = 0, u = 0, presc = 0; int n = 0; };
+struct Worst { double q = 0, quat = 0, u = 0, presc = 0; int n = 0; bool cascaded = false; };
 
 // one record per returned state
 static void emitState(const Spec& S, const Model& M, const Integrator& I, const State& st, int status, Worst* acc,
@@ -123,12 +123,22 @@ static void emitState(const Spec& S, const Model& M, const Integrator& I, const 
     for (int i = 0; i < uerr.size(); ++i) c.push_back(uerr[i] * uw[i]);
     const char* kind = status == Integrator::ReachedEventTrigger ? "event_before_state" : interp ? "interpolated" : "step";
     vh::D(std::string(INTEG_NAMES[S.integ]) + "." + kind + (must ? "" : ".exempt"));
-    const std::string famk = fam + "." + (status == Integrator::ReachedEventTrigger ? "event" : interp ? "interpolated" : "step");
+    // SemiExplicitEuler has no error control: takeOneStep accepts a trial step even if its projection did not converge (the TODO
+    // in takeOneStep, theorem no_error_control_accepts_anything); such sessions get their own class
+    const bool nonConv = S.integ == 6 && (I.getNumConvergenceTestFailures() + I.getNumProjectionFailures() > 0);
+    const std::string fam2 = nonConv ? std::string("AbstractIntegratorRep.nonConvergedAccepted") : fam;
+    const std::string famk = fam2 + "." + (status == Integrator::ReachedEventTrigger ? "event" : interp ? "interpolated" : "step");
+    // classes whose defect hands out an UNPROJECTED state: every later state of the session starts from it, so the violation
+    // accumulates without bound; only the states up to and including the first violating one are evaluated (bounded values)
+    const bool unboundedClass = famk == "CPodes.step" || famk == "AbstractIntegratorRep.minStepForced.step"
+                                || famk == "AbstractIntegratorRep.nonConvergedAccepted.step";
     const double slack = 1 + 1e-9;
     const double rq = norm(a) / tol, rquat = norm(b) / tol, ru = norm(c) / tol;
     // O: the harness's own floating-point evaluation of the acceptance contract (the driver re-evaluates it exactly)
     vh::O("st").i((!must || (rq <= slack && rquat <= slack && ru <= slack)) ? 1 : 0).emit();
-    if (must) {
+    if (must && acc->cascaded) vh::D(famk + ".after_first_violation");
+    if (must && !acc->cascaded) {
+        if (unboundedClass && (rq > slack || rquat > slack || ru > slack || !(rq == rq) || !(ru == ru))) acc->cascaded = true;
         acc->q = std::max(acc->q, rq); acc->quat = std::max(acc->quat, rquat); acc->u = std::max(acc->u, ru);
         vh::P("returned_states_satisfy_position_constraints", famk + ".qerr", rq, slack);
         vh::P("returned_states_have_normalised_quaternions", famk + ".quat", rquat, slack);
